@@ -99,7 +99,7 @@ def gamma1(tier, seed):
         out.append(t)
     # operand names of the form <hex>h (handled by a dedicated branch of the compiler)
     for mf, of in FLAGS:
-        for ops in (["ah"], ["10h"], ["bh", "b"], ["a", "ch"]):
+        for ops in (["ah"], ["10h"], ["bh", "b"], ["a", "ch"], ["A3h"], ["Fh", "b"]):
             pat = [item("mov", ops), "a"]
             out.append({"id": f"g1/hexh/{ftag(mf,of)}/{ops}", "doc": doc_of(pat, mf, of), "feature": "hexh_operand"})
             # regression guard for the documented rewriting itself: <hex>h must behave exactly like the name 0x<hex>
@@ -483,6 +483,11 @@ def gamma7(tier, seed):
         ("opt_not", {"$not": ["mov"], "times": {"min": 0, "max": 2}}),
         ("or_ops", {"$or": [{"mov": ["a", "b"]}, "add"]}),
     ]
+    # the <hex>h operand spelling (any letter case) in last / only / inner operand position: still whole fields, whole records
+    for ops in (["a3h"], ["A3h"], ["b", "1Fh"], ["Ch", "b"]):
+        rew = [("0x" + o[:-1]) if o.endswith("h") else o for o in ops]
+        out.append({"id": f"g7/hexh_end/{ops}", "doc": doc_of(["push", {"mov": ops}]), "pattern": ["push", {"mov": rew}], "feature": "hexh_alignment", "lemmas": L})
+        out.append({"id": f"g7/hexh_lead/{ops}", "doc": doc_of([{"mov": ops}, "ret"]), "pattern": [{"mov": rew}, "ret"], "feature": "hexh_alignment", "lemmas": L})
     for op_ in ("$and_any_order", "$or", "$and"):
         out.append({"id": f"g7/operand_group_end/{op_}", "doc": doc_of([{"add": [{op_: ["a", "b"]}]}, "ret"]), "feature": "operand_group_end", "lemmas": L})
         out.append({"id": f"g7/operand_group_only/{op_}", "doc": doc_of([{"add": [{op_: ["a", "b"]}]}]), "feature": "operand_group_end", "lemmas": L})
@@ -652,7 +657,8 @@ def gamma6(tier, seed):
     L = ("AEM", "EA", "NE", "VAL")
     regs = [("%rax", "%rbx"), ("rax", "rbx"), ("%rbp", "r12")]
     scales = [1, 2, 4, 8, "4", "1"] if tier == "thorough" else [1, 4, "8"]
-    disps = ["0x8", "8", "-0x8", "0x0", 0, 16, "0x7f", "10"] if tier == "thorough" else ["0x8", "8", "-0x8", "0x0", 0, 10, 16]
+    # (hexadecimal constants written without 0x may consist of letters only or start with a digit: "1c", "ff", "a")
+    disps = ["0x8", "8", "-0x8", "0x0", 0, 16, "0x7f", "10", "1c", "ff", "a", "0x2e9b", "-1c"] if tier == "thorough" else ["0x8", "8", "-0x8", "1c", "0x0", 0, 10, 16, "ff"]
     n = 0
 
     def add(fields, pos, tag):
